@@ -166,12 +166,27 @@ def register(prop):
          "entry (address, port, meta, 6-tuple of versions) equals what its owner announced; non-trivial = >=1 user message delivered; " + FP,
          assumptions=["C12 has no schedule in its quantifier: it is decided here by composing the complete real send and receive pipelines of real nodes through the simulated (fragmenting) transport under generated configurations"])
 
+    prop("C20", [dict(scn="C20", quick=300, thorough=30000, wall_quick=150, wall_thorough=2400)],
+         "cluster-interleave plans: 1-4 real nodes under light faults; 20-90 public API calls (Join, Leave x2, Shutdown x2, UpdateNode, Members, NumMembers, LocalNode, GetHealthScore, "
+         "SendBestEffort, SendReliable, Ping, ProtocolVersion, user broadcasts) issued by concurrent simulated clients at PRNG instants over every lifecycle stage: joined, leaving (inside the "
+         "Leave yield window), left, left-and-reaped (GossipToTheDeadTime 0.5-2 s so virtual time passes it plus a probe wrap), shut down; all yield sites active; oracles: no API panic "
+         "(wrappers recover; a panic on a library goroutine kills the worker and is attributed), no call still blocked at the end, Leave within its timeout, second Leave/Shutdown no-ops, "
+         "transport.Shutdown exactly once, later than one awareness-scaled probe interval after Shutdown returned: no goroutine of that instance alive, no packet/dial attempts beyond those of "
+         "explicit API calls, no membership callback; bubble exit without blocked library goroutines; non-trivial = >10 ops ran; " + FP,
+         assumptions=["concurrent Leave/Leave and Shutdown/Shutdown are serialised by a harness-side channel gate instead of the library's leaveLock/shutdownLock: testing/synctest cannot treat a goroutine blocked on sync.Mutex as durably blocked, so two overlapping calls would stall the simulator; every other overlap (Leave vs Shutdown, API vs background) is real",
+                      "Leave after Shutdown is never generated (documented panic)",
+                      "the race detector is not used as an oracle (the scheduler's hand-offs create happens-before edges that hide races)"])
+
 NOT_CLAIMED = {}
 
 SIM_NOTE = ("trusted base: Go runtime + testing/synctest fake clock, the harness (scheduler, SimNet, oracles) under /verif/sim; "
             "assumes the guarded yield sites are the relevant preemption points; seeded search, not proof")
 
 META = {
+ "C20": dict(
+    level_text="Seeded interleavings of the public API from several simulated clients against the background activity of real nodes at the guarded yield sites, across all lifecycle stages incl. left-and-reaped (reachable only in virtual time); panic/hang/timeout oracles on every call, and post-Shutdown quiescence (goroutines, traffic, callbacks) measured one awareness-scaled probe interval after Shutdown returned.",
+    design_ref="DESIGN.md §3 C20", level_note=SIM_NOTE,
+    technique="deterministic simulation: seeded API-call interleavings at yield hooks over all lifecycle stages, post-shutdown quiescence oracle in virtual time"),
  "C12": dict(
     level_text="End-to-end composition of the real send pipeline (compress, CRC, encrypt, label; packet and stream) with the real receive pipeline of another real node through a fragmenting, reordering simulated transport, over seeded configurations and boundary-biased payload sizes; byte-for-byte and exactly-once oracles at the delegates and in Members().",
     design_ref="DESIGN.md §3 C12", level_note=SIM_NOTE,
